@@ -149,6 +149,11 @@ Step ==
               /\ viol' = viol \cup
                     (IF e.all_seen /\ ~(\A i \in DOMAIN e.served : \A j \in DOMAIN e.proxy_epochs : e.served[i].epoch > e.proxy_epochs[j].epoch)
                      THEN {<<l, "C13.recovered_epoch_not_greater">>} ELSE {})
+                 \cup
+                    \* free proxies are served with the global epoch and new clusters start above it: a recovered global epoch that
+                    \* is not above every installed epoch means some subsequently served view is not newer than what a proxy holds
+                    (IF e.all_seen /\ "gepoch_rec" \in DOMAIN e /\ ~(\A j \in DOMAIN e.proxy_epochs : e.gepoch_rec > e.proxy_epochs[j].epoch)
+                     THEN {<<l, "C13.recovered_global_epoch_not_greater">>} ELSE {})
               \* the broker went back to an earlier snapshot: migrations committed in the lost part of the history
               \* are pending again and will legitimately be committed a second time
               /\ commits' = {}
